@@ -185,7 +185,11 @@ def check_case(case) -> Result:
         res.check("C15/scaled-pseudopressure-is-1-at-p_i", abs(at - m_i), 1e-13 * abs(m_i), f"from_table: m_scaled_func(p_i)={at!r} vs m_i={m_i!r};")
     res.labels["p_i_on_node"] = on_node
     mf = float(lib("m_scaled_func", fp.m_scaled_func, p_f))
-    if not (0.0 <= mf < 1.0):
-        res.bad("C15/frac-face-maps-into-unit-interval", f"from_table: scaled pseudopressure at p_f={p_f!r} is {mf!r} (p_i={p_i!r})")
+    # p_i on a row: [0, 1).  p_i between rows k-1 and k: the wrapper's m_i is 1 + (interpolation error of 1/m), so a
+    # frac-face pressure inside that same interval can only be required to stay below m_i; from the row below p_i
+    # downwards the scaled value is at most m_{k-1} * interp(1/m)(p_i) <= 1
+    upper = 1.0 if (on_node or p_f <= float(p[ki - 1])) else m_i
+    if not (0.0 <= mf < upper or (mf == upper == 1.0 and not on_node)):
+        res.bad("C15/frac-face-maps-into-unit-interval", f"from_table: scaled pseudopressure at p_f={p_f!r} is {mf!r} (p_i={p_i!r}, m_i={m_i!r}, rows around p_i: {p[ki - 1]!r}, {p[ki]!r})")
     res.labels["from_table"] = "checked"
     return res
